@@ -17,6 +17,7 @@ const jwk_item_t *pv_s_key;
 jwt_alg_t pv_s_alg;
 const char *pv_s_str;
 unsigned pv_s_len;
+char pv_s_copy[PV_STRMAX];
 unsigned char pv_s_out[PV_MACLEN];
 unsigned pv_s_outlen;
 int pv_s_ok;
@@ -87,6 +88,8 @@ static int pv_sign_common(jwt_t *jwt, char **out, unsigned int *len, const char 
 	pv_s_str = str;
 	pv_s_len = str_len;
 	pv_s_ok = 0;
+	for (i = 0; i < PV_STRMAX; i++)
+		pv_s_copy[i] = (i < str_len) ? str[i] : '\0';
 
 	if (PV_BOOL()) {          /* provider failure */
 		*out = NULL;
